@@ -279,8 +279,9 @@ func (h *Handle) Rows(planID uuid.UUID) (Rows, error) {
 // TEMP trigger AFTER INSERT and one AFTER DELETE per user table (tables discovered from sqlite_master, nothing about the
 // schema is assumed), so that fn is called synchronously, on the goroutine that executes the statement, after every row
 // the vault inserts ("i") or deletes ("d"). TEMP triggers live in the connection, not in the database file, and are not
-// counted by SqliteRows. Used by C14's cancel mode to end a context at an exact row of a Create or Delete.
-func RowHook(v *sqlite.Vault, fn func(op string)) error {
+// counted by SqliteRows. An error returned by fn makes the statement that wrote the row fail (a storage fault at an exact
+// row). Used by C14's cancel mode to end a context, or to fail the store, at an exact row of a Create or Delete.
+func RowHook(v *sqlite.Vault, fn func(op string) error) error {
 	if v == nil {
 		return fmt.Errorf("row hook needs a sqlite vault")
 	}
@@ -294,7 +295,9 @@ func RowHook(v *sqlite.Vault, fn func(op string)) error {
 		NArgs:         1,
 		AllowIndirect: true,
 		Scalar: func(ctx zsqlite.Context, args []zsqlite.Value) (zsqlite.Value, error) {
-			fn(args[0].Text())
+			if err := fn(args[0].Text()); err != nil {
+				return zsqlite.Value{}, err // the statement that wrote the row fails with this error
+			}
 			return zsqlite.IntegerValue(0), nil
 		},
 	})
